@@ -161,6 +161,15 @@ func c14Converge(o *Out, r *rand.Rand, mode client.SelectMode, procs int) {
 	opt.Retries = 0
 	xc := client.NewXClient("Svc", client.Failfast, mode, d, opt)
 	defer xc.Close()
+	// the discovery may have many other watchers (clients sharing it): publishing then takes a
+	// while, and a watcher may run long before Update has finished
+	crowd := r.Intn(4) == 0
+	if crowd {
+		for k := 0; k < 20000; k++ {
+			d.WatchService()
+		}
+		o.Count("converge.crowded-discovery")
+	}
 	nup := 1 + r.Intn(6)
 	var lists [][]*client.KVPair
 	backToBack := r.Intn(3) != 0
@@ -252,7 +261,7 @@ func c14Converge(o *Out, r *rand.Rand, mode client.SelectMode, procs int) {
 		}
 		hist = append(hist, "["+strings.Join(ks, " ")+"]")
 	}
-	rp := map[string]any{"strategy": fmt.Sprint(mode), "group": group, "gomaxprocs": procs, "back_to_back": backToBack, "published": hist, "publisher_edits_in_place": inPlace}
+	rp := map[string]any{"strategy": fmt.Sprint(mode), "group": group, "gomaxprocs": procs, "back_to_back": backToBack, "published": hist, "publisher_edits_in_place": inPlace, "other_watchers": map[bool]int{false: 0, true: 20000}[crowd]}
 	distinctSets := map[string]bool{}
 	for _, l := range lists {
 		var ks []string
